@@ -36,6 +36,10 @@ ATLAS_Q = [
                           ["Select", "lambda j: j.pt()"]]),
     ("a_jet_color_out", [["SelectMany", f"lambda e: {JETS}"], ["Select", "lambda j: j.color()"]]),
     ("a_jet_userfunc", [["SelectMany", f"lambda e: {JETS}"], ["Select", "lambda j: my_scale(j.pt(), 2.0)"]]),
+    # user functions whose names a backend might one day provide itself (the declaration must keep winning, and without a
+    # declaration the call must keep being refused, whatever was imported or translated before)
+    ("a_jet_dphi_user", [["SelectMany", f"lambda e: {JETS}"], ["Select", "lambda j: deltaPhi(j.phi(), 0.0)"]]),
+    ("a_jet_dr_user", [["SelectMany", f"lambda e: {JETS}"], ["Select", "lambda j: deltaR(j.eta(), j.phi(), 0.0, 0.0)"]]),
     ("a_jet_constituents", [["SelectMany", f"lambda e: {JETS}"], ["Select", "lambda j: j.cvals().Count()"]]),
     ("a_forkjets", [["SelectMany", 'lambda e: e.ForkJets("Fork")'], ["Select", "lambda j: j.pt()"]]),
     ("a_jet_aggregate", [["Select", f"lambda e: {JETS}.Select(lambda j: j.pt()).Aggregate(0.0, lambda acc, v: acc + v)"]]),
@@ -80,6 +84,7 @@ CMS_AOD_Q = [
     ("c_mu_first", [["Select", 'lambda e: e.Muons("muons").First().pt()']]),
     ("c_forkmuons", [["SelectMany", 'lambda e: e.ForkMuons("forked")'], ["Select", "lambda m: m.pt()"]]),
     ("c_mu_userfunc", [["SelectMany", 'lambda e: e.Muons("muons")'], ["Select", "lambda m: my_scale(m.pt(), 2.0)"]]),
+    ("c_mu_dphi_user", [["SelectMany", 'lambda e: e.Muons("muons")'], ["Select", "lambda m: deltaPhi(m.phi(), 0.0)"]]),
     ("c_mu_innertrack_hits", [["SelectMany", 'lambda e: e.Muons("muons")'],
                               ["Select", "lambda m: m.innerTrack().hitPattern().numberOfValidHits()"]]),
     ("c_const_math_then_mu", [["Select", 'lambda e: (sqrt(2.0), sin(1.0), e.Muons("muons").Count())']]),
@@ -107,6 +112,7 @@ CMS_MINI_Q = [
     ("m_mu_el_two", [["Select", 'lambda e: (e.Muons("slimmedMuons").Count(), e.Electrons("slimmedElectrons").Count())']]),
     ("m_mu_first", [["Select", 'lambda e: e.Muons("slimmedMuons").First().pt()']]),
     ("m_forkmuons", [["SelectMany", 'lambda e: e.ForkMuons("forked")'], ["Select", "lambda m: m.pt()"]]),
+    ("m_mu_dphi_user", [["SelectMany", 'lambda e: e.Muons("slimmedMuons")'], ["Select", "lambda m: deltaPhi(m.phi(), 0.0)"]]),
     ("m_mu_besttrack_hits", [["SelectMany", 'lambda e: e.Muons("slimmedMuons")'],
                              ["Select", "lambda m: m.bestTrack().hitPattern().numberOfValidHits()"]]),
     ("m_const_math_then_mu", [["Select", 'lambda e: (sqrt(2.0), sin(1.0), e.Muons("slimmedMuons").Count())']]),
@@ -196,6 +202,10 @@ METADATA = {
     # user functions
     "fn_scale": (MY_SCALE, None),
     "fn_scale_int": (MY_SCALE_INT, None),
+    "fn_dphi": ({"metadata_type": "add_cpp_function", "name": "deltaPhi", "include_files": ["TVector2.h"], "arguments": ["phi1", "phi2"],
+                 "code": ["double result = TVector2::Phi_mpi_pi(phi1 - phi2);"], "return_type": "double"}, None),
+    "fn_dr": ({"metadata_type": "add_cpp_function", "name": "deltaR", "include_files": ["cmath"], "arguments": ["eta1", "phi1", "eta2", "phi2"],
+               "code": ["double result = std::sqrt((eta1 - eta2) * (eta1 - eta2) + (phi1 - phi2) * (phi1 - phi2));"], "return_type": "double"}, None),
     # collections declared through metadata
     "coll_forkjets": ({"metadata_type": "add_atlas_event_collection_info", "name": "ForkJets", "include_files": ["xAODJet/JetContainer.h"],
                        "container_type": "xAOD::JetContainer", "element_type": "xAOD::Jet", "contains_collection": True,
@@ -229,6 +239,10 @@ NEEDS = {
     "a_jet_userfunc": ["fn_scale"],
     "c_mu_userfunc": ["fn_scale"],
     "a_jet_constituents": ["jet_cvals"],
+    "a_jet_dphi_user": ["fn_dphi"],
+    "a_jet_dr_user": ["fn_dr"],
+    "c_mu_dphi_user": ["fn_dphi"],
+    "m_mu_dphi_user": ["fn_dphi"],
     "a_forkjets": ["coll_forkjets"],
     "c_forkmuons": ["coll_forkmuons_aod"],
     "m_forkmuons": ["coll_forkmuons_mini"],
